@@ -196,7 +196,8 @@ def process_object(data, dic):
 
         obj = klass.from_json_safe(data, dic)
         # a nested object may have registered the same ID during construction
-        if id_ in dic:
+        # (a model that registers itself, e.g. FlexibleTimeTreeModel, is fine)
+        if id_ in dic and dic[id_] is not obj:
             raise JSONParseError(f"Object with ID `{id_}' already exists")
         dic[id_] = obj
     else:
